@@ -94,6 +94,19 @@ with concurrent.futures.ThreadPoolExecutor(max_workers=8) as ex:
             tr = ks.load_trace(path)
             cov["samples"].append({"kind": "B2 %s programme via %s (each command followed by PING <nonce>)" % (fam, mode),
                                    "commands": ["%s -> %s" % (ks.show_argv(e["argv"]), ks.show_reply(e["reply"])) for e in tr if e["ev"] != "reset"][:10]})
+# ---- the adversarial input space of spec/Robust.tla (every command name x token vectors, every single-point mutation of the
+# valid commands): each reply, rendered by the implementation's own ToBytes, must decode as exactly ONE well-formed value
+# (an error line that carries client bytes must not contain CR or LF, nested or bare)
+import robustlib
+r_anoms, r_summary, r_restarts, r_maxargs = robustlib.run(tier)
+seen_sites = set()
+for a in r_anoms:
+    if a["kind"] == "malformed-reply" and (a["site"], len(a["argv"] or [])) not in seen_sites:
+        seen_sites.add((a["site"], len(a["argv"] or [])))
+        v.report({"branch": "input." + a["site"], "kind": "malformed-reply", "detail": ""}, a,
+                 what="%s -> the reply is not exactly one well-formed RESP value: %s" % (" ".join(repr(x) for x in a["argv"]), a["detail"][:300]))
+cov["adversarial_inputs"] = r_summary["executed"]
+cov["traces_validated_against_impl"] += 0
 cov["samples"].append({"kind": "B1 wire batch", "example": "RPUSH l1 a 'b\\r\\n' | LRANGE l1 0 -1 written as one batch; the reply stream must decode to exactly 2 replies"})
 v.finish(tier, "model_checking", cov, ["reply framing is judged by the independent decoder harness/respcodec (written from the protocol description)",
                                        "content of replies is judged by the family properties (C01, C09-C12, C18); C03 reports only count / decodability / alignment / nil results",
